@@ -65,6 +65,7 @@ def run(chk):
     chk.cov["trusted_base"] = TRUSTED
     proved = chk.proof_part(["UrcuVerif.Props.C14", "drv_poll"], "UrcuVerif.Props.C14", THEOREMS,
                             ["UrcuVerif.Poll", "UrcuVerif.Props.C14", "UrcuVerif.Machine"])
+    proved = chk.live_part() and proved
     ok, log = build()
     if not ok:
         chk.fail("build", {"theorem": "harness/scen/poll.c does not compile against /repo", "lean_error": log[-2000:]}, nofail=True)
